@@ -54,12 +54,20 @@ META = {
         "omit filter. "
         "R7: no raise-condition conjoins `x is not a <container>` with a type test on x's members. "
         "R8: in validators the bare truthiness of the validated value (or of an item of it) never selects the accepting path unless an isinstance test on it dominates. "
+        "R4 also follows local aliases of a field's own object (`ctx = self.md_config.substitutions`, also through `or`/conditional expressions/getattr and annotated "
+        "assignments): a store or mutator call through such an alias is a write into the configuration. "
+        "R10: where a validator requires the members of X to be str (iteration, all/any, integer index, or an inline deep_iterable(instance_of(str), ...)), X's own type "
+        "test excludes str - a concrete container type or an explicit not-a-str test, taken from the function itself or, for a helper parameter, from every call site; "
+        "an abstract test (Sequence, Iterable, ...) or none lets a plain string pass as the container of its characters (R1 applies the same to combinator validators "
+        "in field metadata). in_(range(...)) options are evaluated over module constants. "
         "R9: every docutils setting converter named in _attr_to_optparse_option that splits a comma-delimited string itself strips the items and drops empty ones, "
         "or delegates to docutils' validate_comma_separated_list, whose source is re-read as the oracle (strip + drop empties). "
         "The per-field update is located by role (the function that calls validate_field, reached from merge_file_level directly or through one or two "
         "module-level helpers with parameters substituted), so splitting merge_file_level into helpers keeps every rule deciding."
     ),
     "not_decided": (
+        "which markdown-it parser object a document is rendered with (a cross-parse parser cache keyed on a lossy projection of the configuration, e.g. repr(config), is "
+        "state outliving a parse and is decided by C15, not here); "
         "normal-form equality of arbitrary value spellings; value ranges beyond what validators state; the bodies of the custom check_* validators against their "
         "annotations (only R2/R7/R8 shape facts); the docutils option-string converters beyond their comma splitting (R9): e.g. whether a textual shortcut in _validate_url_schemes still "
         "recognises every YAML mapping spelling - a fact about a string predicate versus YAML's grammar, value semantics; int/bool/YAML conversion of setting strings; whether a guard that skips the dict merge "
@@ -265,16 +273,44 @@ def vshape(corpus: Corpus, mod: Module, node: ast.expr | None):
     if name == "optional":
         return ("opt", vshape(corpus, mod, args[0]))
     if name == "in_":
+        a0 = args[0]
+        if isinstance(a0, ast.Call) and dotted(a0.func) == "range" and not a0.keywords and 1 <= len(a0.args) <= 3:
+            # range(...) only ever yields ints; evaluate it when the bounds are module constants
+            try:
+                return ("in", tuple(range(*[_const_int(mod, x) for x in a0.args])))
+            except Unsupported:
+                return ("in", (0,))  # some ints: enough for the type agreement
+        if isinstance(a0, ast.Call) and dotted(a0.func) in ("list", "tuple", "set", "frozenset") and len(a0.args) == 1 and isinstance(a0.args[0], ast.Call) and dotted(a0.args[0].func) == "range":
+            try:
+                return ("in", tuple(range(*[_const_int(mod, x) for x in a0.args[0].args])))
+            except Unsupported:
+                return ("in", (0,))
         try:
-            vals = mod.eval_const(args[0])
+            vals = mod.eval_const(a0)
         except Unsupported:
-            raise Unsupported(f"in_() options are not a literal: {short(args[0], 40)}") from None
+            raise Unsupported(f"in_() options are not a literal: {short(a0, 40)}") from None
         return ("in", tuple(vals))
     if name == "deep_iterable":
         return ("iter", vshape(corpus, mod, args[0]), vshape(corpus, mod, args[1]))
     if name == "deep_mapping":
         return ("map", vshape(corpus, mod, args[0]), vshape(corpus, mod, args[1]), vshape(corpus, mod, args[2]))
     raise Unsupported(name)
+
+
+def _const_int(mod: Module, e: ast.expr, depth: int = 0) -> int:
+    """Integer value of a constant expression over literals and module-level constants (+, -, *, //)."""
+    if depth > 10:
+        raise Unsupported("constant recursion")
+    if isinstance(e, ast.Constant) and isinstance(e.value, int) and not isinstance(e.value, bool):
+        return e.value
+    if isinstance(e, ast.Name) and e.id in mod.const_nodes:
+        return _const_int(mod, mod.const_nodes[e.id], depth + 1)
+    if isinstance(e, ast.UnaryOp) and isinstance(e.op, ast.USub):
+        return -_const_int(mod, e.operand, depth + 1)
+    if isinstance(e, ast.BinOp) and isinstance(e.op, (ast.Add, ast.Sub, ast.Mult, ast.FloorDiv)):
+        l, r = _const_int(mod, e.left, depth + 1), _const_int(mod, e.right, depth + 1)
+        return l + r if isinstance(e.op, ast.Add) else l - r if isinstance(e.op, ast.Sub) else l * r if isinstance(e.op, ast.Mult) else l // r
+    raise Unsupported(f"not an integer constant: {short(e, 40)}")
 
 
 PRIMS = {"bool", "int", "str", "float"}
@@ -373,6 +409,8 @@ def agree(a, v, where: str = "value") -> list[str]:
         if cont is None:
             if a[1] != "Iterable":
                 out.append(f"the container of the {where} ({a[1]}) is not checked")
+            elif v[1] is not None and v[1][0] == "inst" and "str" in v[1][1]:
+                out.append(f"the container of the {where} is not checked while its members must be str: a plain string passes as an iterable of its characters")
         elif cont[0] != "inst":
             raise Unsupported(f"container validator of kind {cont[0]}")
         elif not cont[1] <= ITER_BASES[a[1]]:
@@ -1681,6 +1719,171 @@ def r8_truthiness_for_none(corpus: Corpus, rep: Report, tier: str):
 
 
 # ---------------------------------------------------------------------------
+# R10 a plain string must not pass as a container of strings
+
+CONCRETE_CONTAINERS = {"list", "tuple", "set", "frozenset", "dict", "List", "Tuple", "Set", "FrozenSet", "Dict", "MutableSequence", "MutableSet", "MutableMapping", "Mapping", "deque"}
+STR_ADMITTING = {"Sequence", "Iterable", "Collection", "Container", "Sized", "Reversible", "Hashable", "object"}
+
+
+def _context_facts(cfg, node: ast.AST) -> list[tuple[ast.expr, bool]]:
+    """Facts that hold when ``node`` is evaluated: dominating branch facts of its statement plus the short-circuit
+    facts of the boolean / conditional expressions around it."""
+    out = list(cfg.guards(cfg.stmt_of(node)))
+    cur: ast.AST = node
+    p_ = parent(cur)
+    while p_ is not None and not isinstance(p_, ast.stmt):
+        if isinstance(p_, ast.BoolOp) and cur in p_.values:
+            i = p_.values.index(cur)
+            for v in p_.values[:i]:
+                out.extend(flow_facts(v, isinstance(p_.op, ast.And)))
+        elif isinstance(p_, ast.IfExp):
+            if cur is p_.body:
+                out.extend(flow_facts(p_.test, True))
+            elif cur is p_.orelse:
+                out.extend(flow_facts(p_.test, False))
+        cur, p_ = p_, parent(p_)
+    if isinstance(p_, (ast.If, ast.While)) and cur is not p_.test:
+        pass
+    return out
+
+
+def _isinstance_str_test(e: ast.AST, var: str | None = None) -> ast.expr | None:
+    """The tested expression when ``e`` is ``isinstance(<x>, <types incl. str>)``."""
+    if isinstance(e, ast.Call) and dotted(e.func) == "isinstance" and len(e.args) == 2:
+        try:
+            names = _type_names(e.args[1])
+        except Unsupported:
+            return None
+        if "str" in names:
+            return e.args[0]
+    return None
+
+
+def _str_member_tests(f: FunctionInfo) -> list[tuple[ast.AST, ast.expr, str]]:
+    """(node where the container is consumed, container expression, how) for every test that the members of a
+    container are str: iteration (for / all / any) or integer index."""
+    out = []
+    for n in f.local_nodes():
+        if isinstance(n, ast.For) and isinstance(n.target, (ast.Name, ast.Tuple)):
+            it, var = n.iter, None
+            if isinstance(it, ast.Call) and dotted(it.func) == "enumerate" and it.args and isinstance(n.target, ast.Tuple) and len(n.target.elts) == 2 and isinstance(n.target.elts[1], ast.Name):
+                it, var = it.args[0], n.target.elts[1].id
+            elif isinstance(n.target, ast.Name):
+                var = n.target.id
+            if var is None or isinstance(it, ast.Call):
+                continue  # .items()/.values()/zip(...): not something a str offers silently
+            if any((x := _isinstance_str_test(c)) is not None and isinstance(x, ast.Name) and x.id == var for st in n.body for c in ast.walk(st)):
+                out.append((n, it, "iteration"))
+        elif isinstance(n, (ast.GeneratorExp, ast.ListComp, ast.SetComp)) and len(n.generators) == 1 and isinstance(n.generators[0].target, ast.Name):
+            g = n.generators[0]
+            if isinstance(g.iter, ast.Call):
+                continue
+            x = _isinstance_str_test(n.elt.operand if isinstance(n.elt, ast.UnaryOp) else n.elt)
+            if x is not None and isinstance(x, ast.Name) and x.id == g.target.id:
+                out.append((n, g.iter, "iteration"))
+        else:
+            x = _isinstance_str_test(n)
+            if x is not None and isinstance(x, ast.Subscript) and isinstance(x.slice, ast.Constant) and isinstance(x.slice.value, int) and not isinstance(x.slice.value, bool):
+                out.append((n, x.value, "integer index"))
+    return out
+
+
+def _container_verdict(corpus: Corpus, f: FunctionInfo, node: ast.AST, cont: ast.expr, depth: int = 0) -> tuple[str | None, str]:
+    """("ok" | "bad" | "unknown" | None, reason): does the context in which ``node`` runs exclude that ``cont`` is a str?
+    Facts of the function itself first; for a helper parameter, the facts at every call site."""
+    cfg = get_cfg(f)
+    ctext = unparse(cont)
+    verdict, why = None, ""
+    for t, pol in _context_facts(cfg, node):
+        if not (isinstance(t, ast.Call) and dotted(t.func) == "isinstance" and len(t.args) == 2 and unparse(t.args[0]) == ctext):
+            continue
+        try:
+            names = {x.rsplit(".", 1)[-1] for x in _type_names_dotted(t.args[1])} if not isinstance(t.args[1], ast.BinOp) else set(_type_names(t.args[1]))
+        except Unsupported:
+            continue
+        if pol and names and names <= CONCRETE_CONTAINERS:
+            return "ok", f"isinstance({ctext}, {unparse(t.args[1])})"
+        if not pol and "str" in names:
+            return "ok", f"not isinstance({ctext}, {unparse(t.args[1])})"
+        if pol and names & STR_ADMITTING:
+            verdict, why = "bad", unparse(t.args[1])
+        elif pol and verdict is None:
+            verdict, why = "unknown", unparse(t.args[1])
+    root = _root_name(cont)
+    if depth < 2 and root is not None and root in f.params and _binding_count(f, root) == 1:
+        callers = _callers_of(corpus, f)
+        if callers:
+            reasons = []
+            for g, c, bind in callers:
+                a = bind.get(root)
+                if a is None:
+                    return verdict, why
+                # the same access path on the caller's argument: val["classes"] -> <arg>["classes"]
+                arg_cont = a if isinstance(cont, ast.Name) else None
+                if arg_cont is None:
+                    return verdict, why
+                v2, w2 = _container_verdict(corpus, g, c, arg_cont, depth + 1)
+                if v2 != "ok":
+                    return (v2 or verdict), (w2 or why)
+                reasons.append(f"{g.qualname}: {w2}")
+            return "ok", "established at every call site (" + "; ".join(sorted(set(reasons))) + ")"
+    return verdict, why
+
+
+@rule("C13.R10")
+def r10_str_is_not_a_container_of_str(corpus: Corpus, rep: Report, tier: str):
+    rep.rule(
+        "C13.R10",
+        "where a validator requires the members of X to be str (by iteration or integer index), X's own type test excludes str: a concrete container type or an explicit "
+        "not-a-str test; an abstract test such as Sequence/Iterable (or none) lets a plain string pass as the container of its characters",
+    )
+    dcv = corpus.mod(DCV).name
+    n_inst = 0
+    for fq, f in sorted(validator_candidates(corpus).items()):
+        cfg = get_cfg(f)
+        seen: set[str] = set()
+        for node, cont, how in sorted(_str_member_tests(f), key=lambda t: (t[0].lineno, t[0].col_offset)):
+            ctext = unparse(cont)
+            k = f"{fq}|members of `{ctext}` must be str ({how})"
+            if k in seen:
+                continue
+            seen.add(k)
+            n_inst += 1
+            verdict, why = _container_verdict(corpus, f, node, cont)
+            site = f.module.site(node)
+            if verdict == "ok":
+                rep.ok("C13.R10", k, site, why)
+            elif verdict == "unknown":
+                rep.listed("C13.R10", k, site, f"container test against {why}: not known whether a str satisfies it")
+            else:
+                rep.violation(
+                    "C13.R10",
+                    k,
+                    site,
+                    f"the members of `{ctext}` are only required to be str, and `{ctext}` itself is " + (f"only tested against {why}, which a str satisfies" if verdict == "bad" else "not type-tested at all")
+                    + ": a plain string is accepted as a container of its (one-character, str) items - e.g. 'ab' where a list/tuple of two strings is documented",
+                )
+        # deep_iterable(instance_of(str), <container>) applied inside a custom validator
+        for c in f.local_nodes():
+            if isinstance(c, ast.Call) and isinstance(c.func, ast.Call) and (f.module.resolve(dotted(c.func.func) or "") == f"{dcv}.deep_iterable"):
+                n_inst += 1
+                shape = vshape(corpus, f.module, c.func)
+                k = f"{fq}|deep_iterable applied to `{short(c.args[2], 30) if len(c.args) > 2 else '?'}`: container excludes str"
+                mem, cont = shape[1], shape[2]
+                if not (mem is not None and mem[0] == "inst" and "str" in mem[1]):
+                    rep.ok("C13.R10", k, f.module.site(c), "members are not required to be str")
+                elif cont is not None and cont[0] == "inst" and cont[1] and cont[1] <= CONCRETE_CONTAINERS:
+                    rep.ok("C13.R10", k, f.module.site(c), f"container must be {sorted(cont[1])}")
+                elif cont is not None and cont[0] == "inst" and not (cont[1] & STR_ADMITTING):
+                    rep.listed("C13.R10", k, f.module.site(c), f"container test against {sorted(cont[1])}: not known whether a str satisfies it")
+                else:
+                    rep.violation("C13.R10", k, f.module.site(c), "members must be str but the container is " + ("not checked" if cont is None else f"only checked against {sorted(cont[1])}") + ": a plain string passes as an iterable of its characters")
+    if n_inst < 4:
+        rep.error("C13.R10", f"only {n_inst} member-is-str tests found in the validators (8 on the pinned tree)")
+    rep.expect_min("C13.R10", 4, "member-is-str tests in check_url_schemes, check_sub_delimiters, check_inventories and the inline deep_iterable applications")
+
+
+# ---------------------------------------------------------------------------
 # R9 comma-delimited docutils setting strings are split like docutils does
 
 
@@ -1896,9 +2099,42 @@ def config_writes(f: FunctionInfo, validators: dict[str, FunctionInfo]) -> list[
     out = []
     # aliases of field values: x = <cfg>.<attr>
     aliases: set[str] = set()
+
+    def field_object(e: ast.AST) -> bool:
+        """``e`` evaluates to the very object stored in a config field (no copy in between)."""
+        if isinstance(e, ast.Attribute) and _is_cfg(e.value, names):
+            return True
+        if isinstance(e, ast.Name) and e.id in aliases:
+            return True
+        if isinstance(e, ast.BoolOp):
+            return any(field_object(v) for v in e.values)
+        if isinstance(e, ast.IfExp):
+            return field_object(e.body) or field_object(e.orelse)
+        if isinstance(e, ast.Call) and dotted(e.func) == "getattr" and len(e.args) >= 2 and _is_cfg(e.args[0], names):
+            return True
+        return False
+
+    defs: dict[str, list[ast.expr]] = {}
     for n in f.local_nodes():
-        if isinstance(n, ast.Assign) and len(n.targets) == 1 and isinstance(n.targets[0], ast.Name) and isinstance(n.value, ast.Attribute) and _is_cfg(n.value.value, names) and n.targets[0].id not in names:
-            aliases.add(n.targets[0].id)
+        if isinstance(n, ast.Assign):
+            for t in n.targets:
+                if isinstance(t, ast.Name):
+                    defs.setdefault(t.id, []).append(n.value)
+                else:
+                    for x in ast.walk(t):
+                        if isinstance(x, ast.Name) and isinstance(x.ctx, ast.Store):
+                            defs.setdefault(x.id, []).append(ast.Constant(value=None))
+        elif isinstance(n, (ast.AnnAssign, ast.NamedExpr)) and isinstance(n.target, ast.Name) and n.value is not None:
+            defs.setdefault(n.target.id, []).append(n.value)
+        elif isinstance(n, (ast.For, ast.comprehension)):
+            for x in ast.walk(n.target):
+                if isinstance(x, ast.Name):
+                    defs.setdefault(x.id, []).append(ast.Constant(value=None))
+    for _ in range(2):
+        for tgt, vals in defs.items():
+            # an alias only if the name never holds anything else (e.g. a copy made afterwards under the same name)
+            if tgt not in names and tgt not in f.params and vals and all(field_object(v) for v in vals):
+                aliases.add(tgt)
     for n in f.local_nodes():
         if isinstance(n, (ast.Assign, ast.AugAssign, ast.AnnAssign, ast.Delete)):
             tgts = n.targets if isinstance(n, (ast.Assign, ast.Delete)) else [n.target]
@@ -2493,7 +2729,7 @@ def r6_entry_points_funnel(corpus: Corpus, rep: Report, tier: str):
     rep.expect_min("C13.R6", 9, "post_init, validate_fields, validate_field, copy, 2x constructor, 2x handler, 2x omit filter")
 
 
-RULES = [r1_validator_types, r2_commit_after_validate, r3_no_raw_overwrite, r4_config_writers, r5_invalid_value_path, r6_entry_points_funnel, r7_short_circuit_consistency, r8_truthiness_for_none, r9_comma_lists_split_like_docutils]
+RULES = [r1_validator_types, r2_commit_after_validate, r3_no_raw_overwrite, r4_config_writers, r5_invalid_value_path, r6_entry_points_funnel, r7_short_circuit_consistency, r8_truthiness_for_none, r9_comma_lists_split_like_docutils, r10_str_is_not_a_container_of_str]
 
 
 # ---------------------------------------------------------------------------
@@ -2822,4 +3058,30 @@ def mutants(corpus: Corpus):
             if good and isinstance(comp, ast.DictComp):
                 var = unparse(comp.generators[0].target)
                 out.append(Mutant("c13-url-schemes-list-spelling-not-normalised", "C13.R9", du.rel, splice(du.src, comp, "{" + f"{var}: None for {var} in {_seg(du, site)}" + "}"), expect="_validate_url_schemes"))
+    # ---- round 8 (a): a config field's own object used as a working container (R4)
+    bm = corpus.mod("mdit_to_docutils.base")
+    f = bm.func("DocutilsRenderer.render_substitution")
+    dd = find_node(f, lambda n: isinstance(n, ast.Dict) and len(n.keys) == 1 and n.keys[0] is None and isinstance(n.values[0], ast.Attribute) and "md_config" in unparse(n.values[0]))
+    if dd is not None:
+        out.append(Mutant("c13-substitutions-dict-itself-used-as-template-context", "C13.R4", bm.rel, splice(bm.src, dd, _seg(bm, dd.values[0])), expect="render_substitution"))
+    f = bm.func("DocutilsRenderer._render_initialise")
+    st0 = f.node.body[0] if not (isinstance(f.node.body[0], ast.Expr) and isinstance(f.node.body[0].value, ast.Constant)) else f.node.body[1]
+    ind = _indent(bm, st0)
+    out.append(Mutant("c13-html-meta-alias-gets-a-default-key", "C13.R4", bm.rel, splice(bm.src, st0, f'meta = self.md_config.html_meta or {{}}\n{ind}meta.setdefault("generator", "myst")\n{ind}{_seg(bm, st0)}'), expect="_render_initialise"))
+    # ---- round 8 (b): a plain string passes as a container of strings (R10 / R1)
+    for fname, mid in (("check_sub_delimiters", "c13-sub-delimiters-accept-any-sequence"), ("check_inventories", "c13-inventory-item-accepts-any-sequence"), ("check_url_schemes", "c13-url-schemes-list-branch-accepts-any-iterable")):
+        f = main.func(fname)
+        t = find_node(f, lambda n: isinstance(n, ast.Call) and dotted(n.func) == "isinstance" and len(n.args) == 2 and isinstance(n.args[1], (ast.BinOp, ast.Tuple)) and {"list", "tuple"} <= set(_type_names(n.args[1])))
+        if t is not None:
+            out.append(Mutant(mid, "C13.R10", main.rel, splice(main.src, t.args[1], "Sequence" if "any-sequence" in mid else "Iterable"), expect=fname))
+    f = main.func("check_fence_as_directive")
+    c = find_node(f, lambda n: isinstance(n, ast.Call) and dotted(n.func) == "deep_iterable" and len(n.args) == 2)
+    if c is not None:
+        out.append(Mutant("c13-fence-as-directive-container-unchecked", "C13.R10", main.rel, splice(main.src, c, f"deep_iterable({_seg(main, c.args[0])})"), expect="check_fence_as_directive"))
+    fld = fields.get("ref_domains")
+    if fld is not None and fld.call is not None:
+        k, v = meta_key_node(fld, "validator")
+        inner = v.args[0] if isinstance(v, ast.Call) and dotted(v.func) == "optional" and v.args else v
+        if isinstance(inner, ast.Call) and dotted(inner.func) == "deep_iterable" and len(inner.args) == 2:
+            out.append(Mutant("c13-ref-domains-container-unchecked", "C13.R1", main.rel, splice(main.src, inner, f"deep_iterable({_seg(main, inner.args[0])})"), expect="ref_domains"))
     return out
